@@ -6,6 +6,7 @@ export GOFLAGS=-mod=mod GOPROXY=off GOSUMDB=off GOTOOLCHAIN=local
 id=$1; n=$2; shift 2; props=${@:-$id}
 wt=/tmp/seed-$id; out=/tmp/seed-$id-out
 cd $wt || exit 2
+if [ -z "$ONLYREPO" ]; then
 git checkout -q -- . ; git clean -fdq
 git apply $out/change$n.diff || { echo "APPLY FAILED"; exit 2; }
 demo=$(ls $out/demo${n}_test.go 2>/dev/null)
@@ -24,6 +25,8 @@ echo "--- demo WITHOUT change (expect ok)"
 (cd $dir && go test -vet=off -count=1 -timeout 5m -run 'Demo|Seed' . 2>&1 | tail -2)
 rm -f $dir/$dest
 git checkout -q -- . ; git clean -fdq
+fi
+[ -n "$NOREPO" ] && exit 0
 cd /repo && git apply $out/change$n.diff || { echo "APPLY TO /repo FAILED"; exit 2; }
 for p in $props; do
   echo "--- ./check $p quick against the change"
